@@ -614,7 +614,20 @@ def check_C14(tier, seed):
                   assumptions=ASSUME_SESS)
 
 
-CHECKS = {"C14": check_C14, "C18": check_C18, "C02": check_C02, "C07": check_C07, "C20": check_C20, "C15": check_C15, "C13": check_C13, "C12": check_C12, "C08": check_C08, "C01": check_C01, "C04": check_C04, "C06": check_C06}
+def check_C19(tier, seed):
+    return mc_sess_check("C19", tier, seed, "MC_C19.tla",
+        rule="three-line programs (line numbers of 1, 2 and 5 digits) with one injected fault -- a dangling line number in "
+             "every referencing form and operand position, unmatched / crossed WHILE and WEND, token-level damage -- preceded "
+             "on its line by nothing, an ASCII statement or multi-byte string literals, the fault on the first, second or "
+             "third line; TLC checks DiagInside (existing line, range inside the listed text, exactly the missing number / "
+             "exactly the keyword) and NoRun (no program statement executes on RUN, GOTO n, GOSUB n, RUN n, CONT, ON..GOTO, "
+             "PRINT:GOTO) on the specification; each session (RUN, LIST with underlines, direct statements, every way of "
+             "entering the program) is executed by the real interpreter: codes, lines, character ranges and underline "
+             "ranges must equal the specified ones",
+        keep=lambda d: not d.get("oom"))
+
+
+CHECKS = {"C19": check_C19, "C14": check_C14, "C18": check_C18, "C02": check_C02, "C07": check_C07, "C20": check_C20, "C15": check_C15, "C13": check_C13, "C12": check_C12, "C08": check_C08, "C01": check_C01, "C04": check_C04, "C06": check_C06}
 for _p in ("C09", "C10", "C11", "C17"):
     CHECKS[_p] = prog_check(_p)
 
